@@ -499,7 +499,7 @@ def _is_truthiness(t, var):
 def _sum_if_eval(run: Run, cp, fn):
     """SUMIF decided by abstract evaluation (engine F) on small concrete ranges: position i is added exactly when the criterion
     accepts the i-th cell of the range and the target has an i-th cell; blanks / None in the target add 0"""
-    from ..finite import Evaluator, AV, const_av, Unknown, AbsRaise
+    from ..finite import evaluator_for, Evaluator, AV, const_av, Unknown, AbsRaise
 
     def lst(xs):
         return AV('list', items=tuple(lst(x) if isinstance(x, list) else (x if isinstance(x, AV) else const_av(x)) for x in xs))
@@ -511,7 +511,7 @@ def _sum_if_eval(run: Run, cp, fn):
              ([5, 6], [None, 20], 20, 'None in the target'), ([7, 1, 8, 2], [1, 2, 4, 8], 5, 'positions 1 and 3')]
     for rng, tgt, want, what in cases:
         construct = f'_sum_if[{cp.label}]/{what}'
-        ev = Evaluator(cp.members, max_depth=10)
+        ev = evaluator_for(cp, max_depth=10)
         try:
             res = ev.call_method('_sum_if', [lst(rng), gt4, lst(tgt)])
         except Unknown as u:
